@@ -122,6 +122,13 @@ def run_case(case, want_trace=False):
 
         def send(i):
             m = msgs[i]
+            if m.get("dup_of") is not None:
+                # a copy of an earlier datagram (same bytes, same MID), e.g. a retransmission that crossed the reply
+                j = m["dup_of"]
+                if j in sent:
+                    sent[j].setdefault("dups", []).append(net.loop.time() + 0.001)
+                    peer.send(sent[j]["dst"], sent[j]["data"])
+                return
             code = CODES[m["code"]]
             if m.get("token") == "known":
                 tok = known_token(i)
@@ -140,7 +147,7 @@ def run_case(case, want_trace=False):
                 payload = b"resp"
             data = R.msg(TYPE_N[m["type"]], code, mid, tok, options, payload)
             dst = (MCAST if m.get("mcast") == 6 else MCAST4, 5683) if m.get("mcast") else A
-            sent[i] = dict(mid=mid, token=tok, t=net.loop.time() + 0.001, data=data)
+            sent[i] = dict(mid=mid, token=tok, t=net.loop.time() + 0.001, data=data, dst=dst)
             peer.send(dst, data)
 
         for i, m in enumerate(msgs):
@@ -187,7 +194,7 @@ def run_case(case, want_trace=False):
         handler_events = [e for e in net.events if e[1] == "handler"]
         for i, m in enumerate(msgs):
             s = sent.get(i)
-            if s is None:
+            if s is None or m.get("dup_of") is not None:
                 continue
             code = CODES[m["code"]]
             typ = m["type"]
@@ -233,8 +240,9 @@ def run_case(case, want_trace=False):
                     # Resource.render to returned messages only, so only the acknowledgement pattern is asserted here
                     n_resp = len({w["fields"]["mid"] for w in with_tok})
                     if typ == "con":
-                        if rsts or len(acks) != 1:
-                            bad("con-request-ack-count", "%d ACK %d RST" % (len(acks), len(rsts)))
+                        ndup = len(s.get("dups", []))
+                        if rsts or not (1 <= len(acks) <= 1 + ndup) or any(w["data"] != acks[0]["data"] for w in acks):
+                            bad("con-request-ack-count", "%d ACK %d RST (%d copies)" % (len(acks), len(rsts), ndup))
                     elif same_mid:
                         bad("non-request-acked-or-reset", R.describe(same_mid[0]["fields"]))
                     if n_resp > 1:
@@ -248,7 +256,18 @@ def run_case(case, want_trace=False):
                 if typ == "con":
                     if rsts:
                         bad("con-request-reset", "")
-                    if len(acks) != 1:
+                    dups = s.get("dups", [])
+                    if dups:
+                        labels.add("duplicate-request")
+                        # copies may only cause byte-identical repetitions of the one acknowledgement
+                        if not acks or any(w["data"] != acks[0]["data"] for w in acks):
+                            bad("con-request-acked-differently", "%s" % [R.describe(w["fields"]) for w in acks])
+                            continue
+                        later = len([t_ for t_ in dups if t_ >= acks[0]["t"] - 1e-9])
+                        if len(acks) > 1 + later:
+                            bad("con-request-ack-count", "%d ACK-type datagrams, %d copies arrived after the first ACK" % (len(acks), later))
+                            continue
+                    elif len(acks) != 1:
                         bad("con-request-ack-count", "%d ACK-type datagrams with its MID" % len(acks))
                         continue
                     ack = acks[0]
@@ -288,8 +307,9 @@ def run_case(case, want_trace=False):
                                     bad("separate-response-mid-not-fresh", R.describe(others[0]["fields"]))
                                 if sp["fields"]["type"] not in (R.CON, R.NON):
                                     bad("separate-response-type", R.describe(sp["fields"]))
-                                if abs(sp["t"] - (t_arr + delay)) > 1e-6:
-                                    bad("separate-response-time", "%.6f" % sp["t"])
+                                # (a separate CON response may wait a few ms behind another unacknowledged CON to the same peer: NSTART)
+                                if not (t_arr + delay - 1e-6 <= sp["t"] <= t_arr + delay + 0.05):
+                                    bad("separate-response-time", "%.6f, handler finished at %.6f" % (sp["t"], t_arr + delay))
                 else:  # NON request
                     if same_mid:
                         bad("non-request-acked-or-reset", R.describe(same_mid[0]["fields"]))
@@ -330,7 +350,7 @@ def run_case(case, want_trace=False):
                 bad("reserved-class-processed", "%d ACK, %d responses, %d handler calls" % (len(acks), len(with_tok), len(invoked)))
         for t, msg, e, exc in net.loop_exceptions:
             vio.append(V("C10/loop-exception/" + type(exc).__name__, "%s %s" % (msg, e)))
-        rows = {(m["type"], "req" if 1 <= CODES[m["code"]] < 32 else m["code"]) for m in msgs}
+        rows = {(m["type"], "req" if 1 <= CODES[m["code"]] < 32 else m["code"]) for m in msgs if m.get("dup_of") is None}
         info = {"trace": net.trace()} if (want_trace or vio) else None
         return Outcome(vio, sorted(labels), len(msgs) == 1 or len(rows) >= 2, info)
     finally:
@@ -378,6 +398,10 @@ def _sequence(draw):
         else:
             m["token"] = draw(st.sampled_from(["known", "unknown", "empty"]))
         msgs.append(m)
+        if 1 <= c < 32 and m["type"] in ("con", "non") and draw(st.integers(0, 3)) == 0:
+            # one or two copies of that request datagram, before or after its acknowledgement
+            for _ in range(draw(st.integers(1, 2))):
+                msgs.append({"t": round(m["t"] + draw(st.sampled_from([0.0, 0.01, 0.04, 0.09, 0.11, 0.3, 0.6])), 3), "dup_of": len(msgs) - 1 if "dup_of" not in msgs[-1] else msgs[-1]["dup_of"], "type": m["type"], "code": m["code"]})
     case = {"msgs": msgs, "rng": draw(st.integers(0, 99))}
     if draw(st.booleans()):
         case["mid0"] = draw(st.sampled_from([0x1FFE, 0x2000, 0x2001, 0xFFFF]))
@@ -403,7 +427,7 @@ RULE = (
     "self-suppressing handlers; one outstanding client request per 'known token' message); the reaction is read off the simulated wire with virtual "
     "timestamps. table = complete enumeration of {CON,NON,ACK,RST} x {Empty, GET, POST, method 0.31, 2.05, 4.04, 5.00, 3.00, 1.00, 6.00, 7.01} x "
     "{unicast, IPv6 multicast, IPv4 multicast local address} x (requests: 7 handlers x No-Response {none,0,2,8,16,26}; responses: token known/unknown/empty) "
-    "plus client requests to multicast with Reliable/Unreliable/default tuning. sequences = 2-6 such messages at offsets around EMPTY_ACK_DELAY. Oracle = RFC 7252 s.4 "
+    "plus client requests to multicast with Reliable/Unreliable/default tuning. sequences = 2-6 such messages at offsets around EMPTY_ACK_DELAY, a quarter of the requests followed by 1-2 copies of the same datagram before or after the acknowledgement (they may only cause byte-identical repetitions of the one ACK). Oracle = RFC 7252 s.4 "
     "reaction table of the statement (piggyback vs empty ACK at exactly +100 ms and separate response with fresh MID/same token, NON never ACKed and answered NON, "
     "ping -> RST, matched CON response -> empty ACK, unmatched -> RST unless multicast, nothing for unmatched NON/ACK/RST and ill-fitting type/code, suppressed responses, "
     "no CON to multicast / ConToMulticast). Non-trivial: every table cell; sequences with >= 2 different table rows. Distinct = SHA-1 of the case."
